@@ -173,3 +173,484 @@ Qed.
 (* calling the static method with both flags off is a programming error (ValueError); no grader does so *)
 Lemma ensure_no_flags : forall v, exists e, ensure_text exc_table ensure false false v = Raise e /\ cls_of e = "ValueError".
 Proof. intro v. destruct v; eexists; split; reflexivity. Qed.
+
+(* ------------------------------------------------------------------------------------------------------- *)
+(* C. the guard around check                                                                                *)
+(* ------------------------------------------------------------------------------------------------------- *)
+Definition generic_exc (inp : pyval) : exc := mkExc (mro_of exc_table "StudentFacingError") (generic_msg guard inp).
+
+Lemma generic_exc_family : forall inp,
+  lib_error (generic_exc inp) /\ student_facing (generic_exc inp) /\ cls_of (generic_exc inp) = "StudentFacingError".
+Proof. intro inp. repeat split; vm_compute; reflexivity. Qed.
+
+(* the three branches of the handler, debug off *)
+Lemma guard_keeps : forall inp e, is_exception e -> lib_error e ->
+  guard_exc exc_table guard false inp e = mkExc (x_mro e) (replace1 NL BR (x_msg e)).
+Proof.
+  intros inp e He Hl. unfold guard_exc. simpl g_catch. simpl g_keep_root.
+  unfold is_exception in He. unfold lib_error in Hl. rewrite He, Hl. reflexivity.
+Qed.
+
+Lemma guard_generic : forall inp e, is_exception e -> ~ lib_error e ->
+  guard_exc exc_table guard false inp e = generic_exc inp.
+Proof.
+  intros inp e He Hl. unfold guard_exc. simpl g_catch. simpl g_keep_root.
+  unfold is_exception in He. unfold lib_error in Hl. rewrite He. simpl.
+  destruct (isinst e "MITxError"); [exfalso; apply Hl; reflexivity | reflexivity].
+Qed.
+
+Lemma guard_debug : forall inp e, guard_exc exc_table guard true inp e = e.
+Proof.
+  intros inp e. unfold guard_exc. destruct (negb (isinst e (g_catch guard))); reflexivity.
+Qed.
+
+(* anything that is not an Exception (KeyboardInterrupt, SystemExit) is not caught at all *)
+Lemma guard_not_exception : forall debug inp e, ~ is_exception e -> guard_exc exc_table guard debug inp e = e.
+Proof.
+  intros debug inp e H. unfold guard_exc. simpl g_catch. unfold is_exception in H.
+  destruct (isinst e "Exception"); [exfalso; apply H; reflexivity | reflexivity].
+Qed.
+
+(* whatever check raises, what leaves the guard is a library error *)
+Lemma guard_family : forall inp e, is_exception e -> lib_error (guard_exc exc_table guard false inp e).
+Proof.
+  intros inp e He. destruct (isinst e "MITxError") eqn:E.
+  - rewrite guard_keeps by assumption. unfold lib_error, isinst in *. simpl. exact E.
+  - rewrite guard_generic; [apply generic_exc_family | exact He | unfold lib_error; congruence].
+Qed.
+
+Lemma guard_family_strict : forall inp e, is_exception e -> (lib_error e -> in_family e) ->
+  in_family (guard_exc exc_table guard false inp e).
+Proof.
+  intros inp e He Hf. destruct (isinst e "MITxError") eqn:E.
+  - rewrite guard_keeps by assumption. specialize (Hf E). unfold in_family, student_facing, config_error, isinst in *.
+    simpl. exact Hf.
+  - rewrite guard_generic; [left; apply generic_exc_family | exact He | unfold lib_error; congruence].
+Qed.
+
+Lemma guard_class_kept : forall inp e, is_exception e -> lib_error e ->
+  cls_of (guard_exc exc_table guard false inp e) = cls_of e
+  /\ x_mro (guard_exc exc_table guard false inp e) = x_mro e.
+Proof. intros inp e He Hl. rewrite guard_keeps by assumption. split; reflexivity. Qed.
+
+(* line breaks: every "\n" becomes "<br/>", nothing else changes *)
+Lemma br_spec : forall s, replace1 NL BR s = flat_map (fun c => if Z.eqb c NL then BR else [c]) s.
+Proof.
+  induction s as [|c r IH]; simpl; [reflexivity|]. destruct (Z.eqb c NL); rewrite IH; reflexivity.
+Qed.
+
+Lemma br_no_newline : forall s, ~ In NL (replace1 NL BR s).
+Proof.
+  induction s as [|c r IH]; simpl; [tauto|]. destruct (Z.eqb c NL) eqn:E.
+  - intro H. do 5 (destruct H as [H|H]; [discriminate|]). exact (IH H).
+  - intros [H|H]; [|exact (IH H)]. subst c. rewrite Z.eqb_refl in E. discriminate.
+Qed.
+
+Lemma br_identity : forall s, ~ In NL s -> replace1 NL BR s = s.
+Proof.
+  induction s as [|c r IH]; simpl; intro H; [reflexivity|]. destruct (Z.eqb c NL) eqn:E.
+  - apply Z.eqb_eq in E. exfalso. apply H. left. exact E.
+  - rewrite IH; [reflexivity | tauto].
+Qed.
+
+Lemma br_app : forall a b, replace1 NL BR (a ++ b) = replace1 NL BR a ++ replace1 NL BR b.
+Proof.
+  induction a as [|c r IH]; simpl; intro b; [reflexivity|]. destruct (Z.eqb c NL); rewrite IH; reflexivity.
+Qed.
+
+(* the generic message names what was submitted *)
+Lemma generic_single : forall t s,
+  generic_msg guard (PStr t s) = s2z "Invalid Input: Could not check input '" ++ s ++ s2z "'".
+Proof. intros t s. unfold generic_msg, render. simpl. repeat rewrite <- app_assoc. try rewrite app_nil_r. reflexivity. Qed.
+
+Lemma generic_list : forall t items,
+  generic_msg guard (PList t items)
+  = s2z "Invalid Input: Could not check inputs '" ++ join (s2z "', '") (map text_of items) ++ s2z "'".
+Proof. intros t items. unfold generic_msg, render. simpl. repeat rewrite <- app_assoc. try rewrite app_nil_r. reflexivity. Qed.
+
+Lemma infix_join : forall sep l s, In s l -> infix s (join sep l).
+Proof.
+  induction l as [|x r IH]; simpl; intros s H; [contradiction|].
+  destruct r as [|y r'].
+  - destruct H as [H|[]]. subst. exists [], []. rewrite app_nil_r. reflexivity.
+  - destruct H as [H|H].
+    + subst. exists [], (sep ++ join sep (y :: r')). reflexivity.
+    + destruct (IH s H) as [a [b Hab]]. exists (x ++ sep ++ a), b. rewrite Hab. repeat rewrite <- app_assoc. reflexivity.
+Qed.
+
+Lemma generic_names_every_input : forall t items s, In s (map text_of items) ->
+  infix s (generic_msg guard (PList t items)).
+Proof.
+  intros t items s H. rewrite generic_list. destruct (infix_join (s2z "', '") _ s H) as [a [b Hab]].
+  exists (s2z "Invalid Input: Could not check inputs '" ++ a), (b ++ s2z "'"). rewrite Hab.
+  repeat rewrite <- app_assoc. reflexivity.
+Qed.
+
+(* ------------------------------------------------------------------------------------------------------- *)
+(* D. the whole call                                                                                        *)
+(* ------------------------------------------------------------------------------------------------------- *)
+Definition the_call := call exc_table guard ensure.
+
+Lemma post_raises_only_config : forall cfg att r e, post cfg att r = Raise e -> e = config_exc ATTEMPT_MSG.
+Proof.
+  intros cfg att r e H. unfold post in H. destruct (cc_credit cfg) as [sched|].
+  - destruct (apply_credit sched (cc_credit_msg cfg) att (entries_of r)).
+    + discriminate.
+    + inversion H. reflexivity.
+  - discriminate.
+Qed.
+
+Lemma post_missing_attempt : forall cfg r sched, cc_credit cfg = Some sched ->
+  post cfg None r = Raise (config_exc ATTEMPT_MSG).
+Proof. intros cfg r sched H. unfold post. rewrite H. reflexivity. Qed.
+
+Lemma post_returns : forall cfg n r, exists r', post cfg (Some n) r = Ret r'.
+Proof.
+  intros cfg n r. unfold post. destruct (cc_credit cfg) as [sched|].
+  - unfold apply_credit. destruct (Qeq_bool _ 1); eexists; reflexivity.
+  - eexists. reflexivity.
+Qed.
+
+Lemma post_no_credit_returns : forall cfg att r, cc_credit cfg = None -> exists r', post cfg att r = Ret r'.
+Proof. intros cfg att r H. unfold post. rewrite H. eexists. reflexivity. Qed.
+
+(* input of the wrong shape is refused before check is consulted: the outcome does not depend on check at all *)
+Lemma call_refuses_ungraded : forall cfg check1 check2 att1 att2 inp, shape_ok (cc_mode cfg) inp = false ->
+  the_call cfg check1 att1 inp = the_call cfg check2 att2 inp
+  /\ exists msg, the_call cfg check1 att1 inp = Raise (config_exc msg).
+Proof.
+  intros cfg check1 check2 att1 att2 inp H. unfold the_call, call.
+  destruct (ensure_refuses _ _ H) as [msg Hm]. rewrite Hm. split; [reflexivity | exists msg; reflexivity].
+Qed.
+
+Lemma call_on_text : forall cfg check att inp, shape_ok (cc_mode cfg) inp = true ->
+  the_call cfg check att inp =
+  match guarded exc_table guard (cc_debug cfg) inp (check inp) with
+  | Raise e => Raise e
+  | Ret r => post cfg att r
+  end.
+Proof. intros cfg check att inp H. unfold the_call, call. rewrite (ensure_accepts _ _ H). reflexivity. Qed.
+
+(* MAIN: with debug off, for every input object, every check oracle whose failures are Python Exceptions, every
+   attempt number: the call returns or raises an exception of the library's own family *)
+Lemma call_family : forall cfg check att inp, cc_debug cfg = false ->
+  (forall v e, check v = Raise e -> is_exception e) ->
+  match the_call cfg check att inp with
+  | Ret _ => True
+  | Raise e => lib_error e /\ is_exception e
+  end.
+Proof.
+  intros cfg check att inp Hd Hc. destruct (shape_ok (cc_mode cfg) inp) eqn:S.
+  - rewrite call_on_text by exact S. rewrite Hd. destruct (check inp) as [r|e] eqn:C; simpl.
+    + destruct (post cfg att r) as [r'|e'] eqn:P; [exact I|].
+      apply post_raises_only_config in P. subst. split; apply config_exc_family.
+    + split; [apply guard_family; exact (Hc _ _ C)|].
+      specialize (Hc _ _ C). destruct (isinst e "MITxError") eqn:E.
+      * rewrite guard_keeps by assumption. unfold is_exception, isinst in *. simpl. exact Hc.
+      * rewrite guard_generic; [vm_compute; reflexivity | exact Hc | unfold lib_error; congruence].
+  - destruct (call_refuses_ungraded cfg check check att att inp S) as [_ [msg Hm]]. rewrite Hm.
+    split; apply config_exc_family.
+Qed.
+
+(* the same with the family spelled out: student-facing or configuration error, provided the library errors
+   check raises are (every class of the tree except the bare root is, by exc_tree_family) *)
+Lemma call_family_strict : forall cfg check att inp, cc_debug cfg = false ->
+  (forall v e, check v = Raise e -> is_exception e /\ (lib_error e -> in_family e)) ->
+  match the_call cfg check att inp with
+  | Ret _ => True
+  | Raise e => in_family e
+  end.
+Proof.
+  intros cfg check att inp Hd Hc. destruct (shape_ok (cc_mode cfg) inp) eqn:S.
+  - rewrite call_on_text by exact S. rewrite Hd. destruct (check inp) as [r|e] eqn:C; simpl.
+    + destruct (post cfg att r) as [r'|e'] eqn:P; [exact I|].
+      apply post_raises_only_config in P. subst. right. apply config_exc_family.
+    + destruct (Hc _ _ C) as [H1 H2]. apply guard_family_strict; assumption.
+  - destruct (call_refuses_ungraded cfg check check att att inp S) as [_ [msg Hm]]. rewrite Hm.
+    right. apply config_exc_family.
+Qed.
+
+(* an anticipated problem keeps its class, its message has the line breaks rendered; an unanticipated one becomes
+   the generic error naming the input; a successful check is never turned into an error by the guard *)
+Lemma call_anticipated : forall cfg check att inp e, cc_debug cfg = false -> shape_ok (cc_mode cfg) inp = true ->
+  check inp = Raise e -> is_exception e -> lib_error e ->
+  the_call cfg check att inp = Raise (mkExc (x_mro e) (replace1 NL BR (x_msg e))).
+Proof.
+  intros cfg check att inp e Hd S C He Hl. rewrite call_on_text by exact S. rewrite Hd, C. simpl.
+  rewrite guard_keeps by assumption. reflexivity.
+Qed.
+
+Lemma call_unanticipated : forall cfg check att inp e, cc_debug cfg = false -> shape_ok (cc_mode cfg) inp = true ->
+  check inp = Raise e -> is_exception e -> ~ lib_error e ->
+  the_call cfg check att inp = Raise (generic_exc inp).
+Proof.
+  intros cfg check att inp e Hd S C He Hl. rewrite call_on_text by exact S. rewrite Hd, C. simpl.
+  rewrite guard_generic by assumption. reflexivity.
+Qed.
+
+Lemma call_check_returned : forall cfg check att inp r, shape_ok (cc_mode cfg) inp = true -> check inp = Ret r ->
+  the_call cfg check att inp = post cfg att r.
+Proof. intros cfg check att inp r S C. rewrite call_on_text by exact S. rewrite C. reflexivity. Qed.
+
+(* debug on: the raw exception is re-raised unchanged (why the property says "with debug off") *)
+Lemma call_debug_reraises : forall cfg check att inp e, cc_debug cfg = true -> shape_ok (cc_mode cfg) inp = true ->
+  check inp = Raise e -> the_call cfg check att inp = Raise e.
+Proof.
+  intros cfg check att inp e Hd S C. rewrite call_on_text by exact S. rewrite Hd, C. simpl. rewrite guard_debug. reflexivity.
+Qed.
+
+(* ItemGrader.__call__: inference from `expect` happens outside the guarded region *)
+Lemma item_call_no_expect : forall cfg infer check att inp,
+  item_call exc_table guard ensure cfg infer false check att inp = the_call cfg check att inp.
+Proof. reflexivity. Qed.
+
+Lemma item_call_valid_expect : forall cfg check att inp,
+  item_call exc_table guard ensure cfg (Ret tt) true check att inp = the_call cfg check att inp.
+Proof. reflexivity. Qed.
+
+Lemma item_call_invalid_expect_escapes : forall cfg e check att inp,
+  item_call exc_table guard ensure cfg (Raise e) true check att inp = Raise e.
+Proof. reflexivity. Qed.
+
+(* ------------------------------------------------------------------------------------------------------- *)
+(* E. numpy floating point errors and the except-clause tables                                              *)
+(* ------------------------------------------------------------------------------------------------------- *)
+Definition np_exc (err : cstr) : exc := np_raise np_err_rules np_err_default err.
+
+Definition arith_or_value (e : exc) : Prop :=
+  cls_of e = "ZeroDivisionError" \/ cls_of e = "OverflowError" \/ cls_of e = "ValueError" \/ cls_of e = "Exception".
+
+(* whatever numpy reports, the handler raises a Python Exception of one of four classes *)
+Lemma np_exc_classes : forall err, is_exception (np_exc err) /\ arith_or_value (np_exc err).
+Proof.
+  intro err. unfold np_exc, np_raise, np_err_rules, np_pick.
+  destruct (containsb (s2z "divide by zero") err); [split; [reflexivity | left; reflexivity]|].
+  destruct (containsb (s2z "overflow") err); [split; [reflexivity | right; left; reflexivity]|].
+  destruct (containsb (s2z "value") err); [split; [reflexivity | right; right; left; reflexivity]|].
+  split; [reflexivity | right; right; right; reflexivity].
+Qed.
+
+Definition lib_exc (c : string) (m : cstr) : exc := mkExc (mro_of exc_table c) m.
+
+Definition DIV_MSG : cstr := s2z "Division by zero occurred. Check your input's denominators.".
+Definition OVF_MSG : cstr := s2z "Numerical overflow occurred. Does your input generate very large numbers?".
+Definition fn_domain_msg (name : cstr) : cstr :=
+  s2z "There was an error evaluating " ++ name ++ s2z "(...). Its input does not seem to be in its domain.".
+Definition fn_overflow_msg (name : cstr) : cstr :=
+  s2z "There was an error evaluating " ++ name ++ s2z "(...). (Numerical overflow).".
+
+(* MathExpression.eval: the two arithmetic errors become their student-facing counterparts, everything else passes *)
+Lemma eval_recast_zero : forall env e, isinst e "OverflowError" = false -> isinst e "ZeroDivisionError" = true ->
+  apply_handlers exc_table eval_handlers env e = lib_exc "CalcZeroDivisionError" DIV_MSG.
+Proof. intros env e H1 H2. unfold eval_handlers. simpl. rewrite H1, H2. reflexivity. Qed.
+
+Lemma eval_recast_overflow : forall env e, isinst e "OverflowError" = true ->
+  apply_handlers exc_table eval_handlers env e = lib_exc "CalcOverflowError" OVF_MSG.
+Proof. intros env e H1. unfold eval_handlers. simpl. rewrite H1. reflexivity. Qed.
+
+Lemma eval_recast_other : forall env e, isinst e "OverflowError" = false -> isinst e "ZeroDivisionError" = false ->
+  apply_handlers exc_table eval_handlers env e = e.
+Proof. intros env e H1 H2. unfold eval_handlers. simpl. rewrite H1, H2. reflexivity. Qed.
+
+(* a numpy "divide by zero" / "overflow" report inside an expression surfaces as the Calc error *)
+Lemma np_divide_by_zero_surfaces : forall err env, containsb (s2z "divide by zero") err = true ->
+  apply_handlers exc_table eval_handlers env (np_exc err) = lib_exc "CalcZeroDivisionError" DIV_MSG.
+Proof.
+  intros err env H. unfold np_exc, np_raise, np_err_rules, np_pick. rewrite H. reflexivity.
+Qed.
+
+Lemma np_overflow_surfaces : forall err env, containsb (s2z "divide by zero") err = false ->
+  containsb (s2z "overflow") err = true ->
+  apply_handlers exc_table eval_handlers env (np_exc err) = lib_exc "CalcOverflowError" OVF_MSG.
+Proof.
+  intros err env H0 H. unfold np_exc, np_raise, np_err_rules, np_pick. rewrite H0, H. reflexivity.
+Qed.
+
+(* MathExpression.eval_function: whatever the function raises (any Exception), a student-facing error comes out;
+   student-facing errors pass unchanged *)
+Lemma evalfn_recast_cases : forall name e, is_exception e ->
+  let e' := apply_handlers exc_table evalfn_handlers (fun _ => name) e in
+  (student_facing e /\ e' = e)
+  \/ (~ student_facing e /\ isinst e "ZeroDivisionError" = true /\ e' = lib_exc "CalcZeroDivisionError" (fn_domain_msg name))
+  \/ (~ student_facing e /\ isinst e "ZeroDivisionError" = false /\ isinst e "OverflowError" = true
+      /\ e' = lib_exc "CalcOverflowError" (fn_overflow_msg name))
+  \/ (~ student_facing e /\ isinst e "ZeroDivisionError" = false /\ isinst e "OverflowError" = false
+      /\ e' = lib_exc "FunctionEvalError" (fn_domain_msg name)).
+Proof.
+  intros name e He. unfold is_exception in He. unfold student_facing, evalfn_handlers. simpl.
+  destruct (isinst e "StudentFacingError") eqn:E1; [left; split; reflexivity|].
+  destruct (isinst e "ZeroDivisionError") eqn:E2.
+  { right; left. split; [discriminate|]. split; [reflexivity|]. vm_compute. reflexivity. }
+  destruct (isinst e "OverflowError") eqn:E3.
+  { right; right; left. split; [discriminate|]. split; [reflexivity|]. split; [reflexivity|].
+    vm_compute. reflexivity. }
+  rewrite He. right; right; right. split; [discriminate|]. split; [reflexivity|]. split; [reflexivity|].
+  vm_compute. reflexivity.
+Qed.
+
+Lemma lib_exc_calc_student_facing : forall c m,
+  c = "CalcZeroDivisionError" \/ c = "CalcOverflowError" \/ c = "FunctionEvalError" \/ c = "ArgumentError"
+  \/ c = "UnableToParse" \/ c = "UnbalancedBrackets" ->
+  student_facing (lib_exc c m) /\ lib_error (lib_exc c m) /\ is_exception (lib_exc c m).
+Proof. intros c m H. decompose [or] H; subst; repeat split; vm_compute; reflexivity. Qed.
+
+Lemma evalfn_student_facing : forall name e, is_exception e ->
+  student_facing (apply_handlers exc_table evalfn_handlers (fun _ => name) e).
+Proof.
+  intros name e He. destruct (evalfn_recast_cases name e He) as [[H1 H2]|[[_ [_ H]]|[[_ [_ [_ H]]]|[_ [_ [_ H]]]]]].
+  - rewrite H2. exact H1.
+  - rewrite H. apply lib_exc_calc_student_facing. tauto.
+  - rewrite H. apply lib_exc_calc_student_facing. tauto.
+  - rewrite H. apply lib_exc_calc_student_facing. tauto.
+Qed.
+
+(* ------------------------------------------------------------------------------------------------------- *)
+(* F. BracketValidator accepts exactly the balanced strings; MathParser.parse                                *)
+(* ------------------------------------------------------------------------------------------------------- *)
+Definition opener (k : bkind) : Z := match k with Curly => 123%Z | Paren => 40%Z | Square => 91%Z end.
+Definition closer (k : bkind) : Z := match k with Curly => 125%Z | Paren => 41%Z | Square => 93%Z end.
+
+(* the Dyck language over three bracket pairs, interleaved with arbitrary other characters *)
+Inductive Balanced : cstr -> Prop :=
+| B_nil : Balanced []
+| B_other : forall c s, classify c = None -> Balanced s -> Balanced (c :: s)
+| B_pair : forall k s t, Balanced s -> Balanced t -> Balanced (opener k :: s ++ closer k :: t).
+
+Lemma classify_opener : forall k, classify (opener k) = Some (k, false).
+Proof. destruct k; reflexivity. Qed.
+
+Lemma classify_closer : forall k, classify (closer k) = Some (k, true).
+Proof. destruct k; reflexivity. Qed.
+
+Lemma classify_inv : forall c k b, classify c = Some (k, b) -> c = if b then closer k else opener k.
+Proof.
+  intros c k b H. unfold classify in H.
+  destruct (Z.eqb c 123) eqn:E1; [apply Z.eqb_eq in E1; inversion H; subst; reflexivity|].
+  destruct (Z.eqb c 125) eqn:E2; [apply Z.eqb_eq in E2; inversion H; subst; reflexivity|].
+  destruct (Z.eqb c 40) eqn:E3; [apply Z.eqb_eq in E3; inversion H; subst; reflexivity|].
+  destruct (Z.eqb c 41) eqn:E4; [apply Z.eqb_eq in E4; inversion H; subst; reflexivity|].
+  destruct (Z.eqb c 91) eqn:E5; [apply Z.eqb_eq in E5; inversion H; subst; reflexivity|].
+  destruct (Z.eqb c 93) eqn:E6; [apply Z.eqb_eq in E6; inversion H; subst; reflexivity|].
+  discriminate.
+Qed.
+
+Lemma bkind_eqb_eq : forall a b, bkind_eqb a b = true <-> a = b.
+Proof. destruct a, b; simpl; split; intro H; try discriminate; reflexivity. Qed.
+
+Lemma scan_balanced_prefix : forall s, Balanced s ->
+  forall t i st, bv_scan (s ++ t) i st = bv_scan t (i + List.length s) st.
+Proof.
+  intros s H. induction H as [|c s Hc Hs IH|k s t Hs IHs Ht IHt]; intros u i st.
+  - simpl. rewrite Nat.add_0_r. reflexivity.
+  - simpl. rewrite Hc. rewrite IH. f_equal. lia.
+  - simpl. rewrite classify_opener. rewrite <- app_assoc. rewrite IHs. simpl. rewrite classify_closer.
+    rewrite (proj2 (bkind_eqb_eq k k) eq_refl). rewrite IHt. f_equal.
+    rewrite app_length. simpl. lia.
+Qed.
+
+Lemma balanced_accepted : forall s, Balanced s -> bv_validate s = BvOk.
+Proof.
+  intros s H. unfold bv_validate. rewrite <- (app_nil_r s). rewrite (scan_balanced_prefix s H). reflexivity.
+Qed.
+
+Fixpoint Closes (st : list bkind) (s : cstr) : Prop :=
+  match st with
+  | [] => Balanced s
+  | k :: st' => exists s1 s2, s = s1 ++ closer k :: s2 /\ Balanced s1 /\ Closes st' s2
+  end.
+
+Lemma closes_cons_other : forall st s c, classify c = None -> Closes st s -> Closes st (c :: s).
+Proof.
+  destruct st as [|k st']; simpl; intros s c Hc H.
+  - apply B_other; assumption.
+  - destruct H as [s1 [s2 [E [B C]]]]. exists (c :: s1), s2. subst. repeat split; try assumption.
+    apply B_other; assumption.
+Qed.
+
+Lemma closes_pair : forall st k s1 s2, Balanced s1 -> Closes st s2 -> Closes st (opener k :: s1 ++ closer k :: s2).
+Proof.
+  destruct st as [|k' st']; simpl; intros k s1 s2 B H.
+  - apply B_pair; assumption.
+  - destruct H as [s3 [s4 [E [B3 C]]]]. exists (opener k :: s1 ++ closer k :: s3), s4. subst.
+    split; [simpl; rewrite <- app_assoc; reflexivity|]. split; [apply B_pair; assumption | exact C].
+Qed.
+
+Lemma scan_ok_closes : forall s i st, bv_scan s i st = BvOk -> Closes (map snd st) s.
+Proof.
+  induction s as [|c r IH]; intros i st H.
+  - simpl in H. destruct st; [apply B_nil | discriminate].
+  - simpl in H. destruct (classify c) as [[k b]|] eqn:C.
+    + pose proof (classify_inv c k b C) as Hc. destruct b.
+      * destruct st as [|[j pk] st']; [discriminate|].
+        destruct (bkind_eqb pk k) eqn:E; [|discriminate]. apply bkind_eqb_eq in E. subst pk.
+        apply IH in H. simpl. exists [], r. subst c. repeat split; [apply B_nil | exact H].
+      * apply IH in H. simpl in H. destruct H as [s1 [s2 [E [B Cl]]]]. subst c r. apply closes_pair; assumption.
+    + apply IH in H. apply closes_cons_other; assumption.
+Qed.
+
+Lemma bv_ok_iff_balanced : forall s, bv_validate s = BvOk <-> Balanced s.
+Proof.
+  intro s. split.
+  - intro H. apply scan_ok_closes in H. exact H.
+  - apply balanced_accepted.
+Qed.
+
+Lemma bv_message_none_iff : forall s, bv_message s = None <-> Balanced s.
+Proof.
+  intro s. rewrite <- bv_ok_iff_balanced. unfold bv_message. destruct (bv_validate s); split; intro H; try discriminate; reflexivity.
+Qed.
+
+Definition the_parse := parse_model exc_table parse_handlers parse_strip raw_parse_steps.
+
+Definition PARSE_PRE : cstr := s2z "Invalid Input: Could not parse '".
+Definition PARSE_POST : cstr := s2z "' as a formula".
+
+(* unbalanced text is rejected as UnbalancedBrackets before the grammar is consulted *)
+Lemma parse_unbalanced : forall expr gram, ~ Balanced (remove_chars parse_strip expr) ->
+  exists m, the_parse expr gram = Raise (lib_exc "UnbalancedBrackets" m)
+            /\ forall gram', the_parse expr gram' = the_parse expr gram.
+Proof.
+  intros expr gram H. unfold the_parse, parse_model, raw_parse_steps. simpl run_steps.
+  destruct (bv_message (remove_chars parse_strip expr)) as [m|] eqn:E.
+  - exists m. split; reflexivity.
+  - exfalso. apply H. apply bv_message_none_iff. exact E.
+Qed.
+
+Lemma parse_balanced : forall expr gram, Balanced (remove_chars parse_strip expr) ->
+  the_parse expr gram =
+  match gram (remove_chars parse_strip expr) with
+  | GOk => Ret tt
+  | GRaise e => Raise (apply_handlers exc_table parse_handlers (fun _ => expr) e)
+  end.
+Proof.
+  intros expr gram H. unfold the_parse, parse_model, raw_parse_steps. simpl run_steps.
+  apply bv_message_none_iff in H. rewrite H. destruct (gram _); reflexivity.
+Qed.
+
+(* a grammar failure (pyparsing's ParseException) becomes UnableToParse quoting the text as typed *)
+Lemma parse_exception_recast : forall expr e, isinst e "ParseException" = true ->
+  apply_handlers exc_table parse_handlers (fun _ => expr) e = lib_exc "UnableToParse" (PARSE_PRE ++ expr ++ PARSE_POST).
+Proof.
+  intros expr e H. unfold parse_handlers. simpl. rewrite H. vm_compute. reflexivity.
+Qed.
+
+Lemma parse_other_passes : forall expr e, isinst e "ParseException" = false ->
+  apply_handlers exc_table parse_handlers (fun _ => expr) e = e.
+Proof. intros expr e H. unfold parse_handlers. simpl. rewrite H. reflexivity. Qed.
+
+(* parsing any text, with the engine either accepting or raising ParseException: returns or a student-facing error *)
+Lemma parse_family : forall expr gram,
+  (forall s e, gram s = GRaise e -> isinst e "ParseException" = true) ->
+  match the_parse expr gram with
+  | Ret _ => True
+  | Raise e => student_facing e /\ lib_error e /\ is_exception e
+  end.
+Proof.
+  intros expr gram Hg. destruct (bv_message (remove_chars parse_strip expr)) as [m|] eqn:E.
+  - assert (H : ~ Balanced (remove_chars parse_strip expr)).
+    { intro B. apply bv_message_none_iff in B. congruence. }
+    destruct (parse_unbalanced expr gram H) as [m' [Hm _]]. rewrite Hm. apply lib_exc_calc_student_facing. tauto.
+  - apply bv_message_none_iff in E. rewrite parse_balanced by exact E.
+    destruct (gram _) as [|e] eqn:G; [exact I|]. rewrite parse_exception_recast by (eapply Hg; exact G).
+    apply lib_exc_calc_student_facing. tauto.
+Qed.
